@@ -152,7 +152,9 @@ def bulk_history(sc):
     return ev
 
 
-DRIVERS = {"history": ("harness.checks.c05", "random_history", "PstateTrace", FAMILY),
+FAMILY_E = r"^inv\.(arrays_equally_long|pid|npid)|^files\.pid_(sorted|ge_index)|^move\.ids|^release\.(pids|npid)|^run\.crashed"
+DRIVERS = {"e2e-identity": ("harness.e2e", "run_e2e", "LadimTrace", FAMILY_E),
+           "history": ("harness.checks.c05", "random_history", "PstateTrace", FAMILY),
            "bulk-history": ("harness.checks.c05", "bulk_history", "PstateTrace", FAMILY)}
 
 
@@ -194,6 +196,12 @@ def run(tier, seed):
     scs = [dict(seed=seed * 1000 + i, len=rng_len, big=(i % 3 == 0), cls=dict(big=(i % 3 == 0))) for i, rng_len in enumerate([40] * (400 if thorough else 120))]
     traces = pmap("harness.checks.c05", "random_history", scs)
     rep.add_tv("history", "PstateTrace", scs, traces, tlc.validate_traces("PstateTrace", traces), family=FAMILY)
+    # identity through complete runs: every snapshot any module sees (release, forcing, output, tracker, IBM) and every output record
+    from ..e2e import base_scenario, directed
+    re_ = random.Random(seed + 13)
+    es = [directed(re_, "deaths") if k % 3 else base_scenario(re_) for k in range(300 if thorough else 90)]
+    et = pmap("harness.e2e", "run_e2e", es)
+    rep.add_tv("e2e-identity", "LadimTrace", es, et, tlc.validate_traces("LadimTrace", et, batch_events=1500), family=FAMILY_E)
     bs = [dict(seed=seed * 77 + i, len=14, cls=dict(bulk=True)) for i in range(40 if thorough else 10)]
     bt = pmap("harness.checks.c05", "bulk_history", bs)
     rep.add_tv("bulk-history", "PstateTrace", bs, bt, tlc.validate_traces("PstateTrace", bt, batch_events=60, timeout=1800), family=FAMILY)
@@ -201,7 +209,8 @@ def run(tier, seed):
                           if any(o["op"] == "compactify" for o in h) and any(o["op"] == "kill" for o in h)})
     rep.rule = ("behaviours = operation sequences over append(1-2; defaulted/scalar/array)/kill/compactify/item update generated by TLC "
                 "(all up to the GEN depth, simulated to depth 16); random histories recorded from the real State, ten of them with 257-1100 particles appended "
-                "and up to all of them killed at once; non-trivial = distinct sequences containing a kill and a compactify")
+                "and up to all of them killed at once; complete runs (scripted deaths, freezes, continuous release) with the identity invariants evaluated "
+                "on every snapshot a module sees and on every output record; non-trivial = distinct sequences containing a kill and a compactify")
     rep.assumptions = ["abstract operations are mapped to State calls the way LADiM's own modules use it (append(**arrays), "
                        "state['alive'][i] = False, compactify(), state[var] = array)"]
     return rep
